@@ -12,14 +12,14 @@ def add_query(H, Q, logs, q, b, k, t, i, entry, label, tier, timeout=600):
     tag = 'b_%s_q%db%dk%dt%di%d' % ('log' if logs else 'span', q, b, k, t, i)
     if tag not in H: H[tag] = batch_harness(logs, q, b, k, t, i)
     name = '%s_%s_q%db%dk%dt%di%d' % (label, 'log' if logs else 'span', q, b, k, t, i)
-    Q.append(dict(name=name, harness=tag, entry=entry, unwind=14, unwindset=BATCH_US, rec_unwind=3, timeout=timeout, tier=tier,
+    Q.append(dict(name=name, harness=tag, entry=entry, unwind=18, unwindset=BATCH_US, rec_unwind=3, timeout=timeout, tier=tier,
                   shape='%s: max_queue_size %d, max_export_batch_size %d, %d records produced first, ticket history %s, interference inside the exporter: %s' % (
                       'BatchLogRecordProcessor' if logs else 'BatchSpanProcessor', q, b, k, ('ForceFlush never used', 'earlier flush completed', 'one flush outstanding')[t], ('none', 'producer call during the first Export', 'producer call + flush ticket during the first Export', 'producer call + flush ticket during the exporter ForceFlush', 'flush ticket during the first Export', 'producer + ticket during the first Export and during the exporter ForceFlush', 'a second thread may call Shutdown during the first Export')[i])))
 
 def add_ff_query(H, Q, logs, q, b, k, wmode, toclass, tier, timeout=600):
     tag = 'b_%s_q%db%dk%d_w%dto%d' % ('log' if logs else 'span', q, b, k, wmode, toclass)
     if tag not in H: H[tag] = batch_harness(logs, q, b, k, 0, 0, ['WMODE=%d' % wmode, 'TOCLASS=%d' % toclass])
-    Q.append(dict(name='force_flush_call_%s_q%db%dk%d_w%dto%d' % ('log' if logs else 'span', q, b, k, wmode, toclass), harness=tag, entry='h_force_flush', unwind=14, unwindset=BATCH_US, rec_unwind=3, timeout=timeout, tier=tier,
+    Q.append(dict(name='force_flush_call_%s_q%db%dk%d_w%dto%d' % ('log' if logs else 'span', q, b, k, wmode, toclass), harness=tag, entry='h_force_flush', unwind=18, unwindset=BATCH_US, rec_unwind=3, timeout=timeout, tier=tier,
                   optional_reach=([] if wmode else ['ForceFlush true: everything ended before the call was exported exactly once', "ForceFlush true: the exporter's ForceFlush ran after those records"]),
                   shape='%s::ForceFlush: queue %d, batch %d, %d records queued; %s; timeout %s; condition waits may time out or not' % ('BatchLogRecordProcessor' if logs else 'BatchSpanProcessor', q, b, k,
                         'the worker runs an export cycle while the caller waits' if wmode else 'the worker never runs (clock advances >= 2 ms per reading)', ('0 (unlimited)', '1000 us', 'microseconds::max')[toclass])))
